@@ -138,6 +138,40 @@ mut("c17-first-write-wins", ["C17"], "trie/utils/db.py",
     "    def __setitem__(self, key, value):\n        if self.cache.get(key, DELETED) is DELETED:\n            self.cache[key] = value",
     suite=None, note="a second buffered write to the same key is ignored")
 
+FOG = "trie/fog.py"
+mut("c11-mark-all-complete-mutates-receiver", ["C11"], FOG,
+    "        new_unexplored_prefixes = self._unexplored_prefixes.copy()",
+    "        new_unexplored_prefixes = self._unexplored_prefixes",
+    suite=True, note="mark_all_complete edits the receiver's set in place")
+mut("c11-explore-mutates-receiver", ["C11"], FOG,
+    "        new_fog_prefixes = self._unexplored_prefixes.copy()",
+    "        new_fog_prefixes = self._unexplored_prefixes",
+    suite=False, note="explore edits the receiver's set in place")
+mut("c11-nearest-right-wrong-containment", ["C11"], FOG,
+    "            if key_starts_with(key, nearest_left):\n                return nearest_left\n            else:\n                try:",
+    "            if key_starts_with(nearest_left, key):\n                return nearest_left\n            else:\n                try:",
+    suite=False, note="nearest_right tests containment the wrong way round")
+mut("c11-duplicate-segments-accepted", ["C11"], FOG,
+    "        if len(set(sub_segments)) != len(sub_segments):",
+    "        if False:",
+    suite=False, note="duplicate sub-segments are accepted")
+mut("c11-nested-check-needs-three-lengths", ["C11"], FOG,
+    "        if len(all_lengths) > 1:",
+    "        if len(all_lengths) > 2:",
+    suite=None, note="nested sub-segments of two different lengths are accepted: the antichain invariant breaks")
+mut("c11-eq-compares-sizes", ["C11"], FOG,
+    "            return self._unexplored_prefixes == other._unexplored_prefixes",
+    "            return len(self._unexplored_prefixes) == len(other._unexplored_prefixes)",
+    suite=None, note="== compares only the number of unexplored prefixes")
+mut("c11-nearest-unknown-prefers-far-side", ["C11"], FOG,
+    "            if left_distance < right_distance:\n                return nearest_left",
+    "            if left_distance > right_distance:\n                return nearest_left",
+    suite=None, note="nearest_unknown returns the right neighbour even when the left one contains the key")
+mut("c11-unknown-prefix-ignored", ["C11"], FOG,
+    "        except KeyError:\n            raise ValidationError(\n                f\"Old parent {old_prefix} not found in {new_fog_prefixes!r}\"\n            )",
+    "        except KeyError:\n            pass",
+    suite=None, note="exploring a prefix that is not unexplored is accepted and adds its children")
+
 quiet("q-no-shortcircuit-delete-branch", ["C01", "C02", "C06"], HX,
       "        if encoded_sub_node == node[trie_key[0]]:\n            # If no change, (value already empty), short-circuit and skip any other work\n            return node\n\n        node[trie_key[0]] = encoded_sub_node",
       "        node[trie_key[0]] = encoded_sub_node",
